@@ -92,7 +92,11 @@ def replay(case):
     try:
         xs = traj_ok(ode.tdvp(H, x0, h, n, threshold=0, max_rank=64), 'tdvp')
         if xs is not None and full:
-            exact(xs, 'tdvp')
+            if d == 1 and all(np.linalg.norm(v - x0d) <= 1e-12 for v in xs) and np.linalg.norm(U @ x0d - x0d) > 1e-8:
+                # classifier of known finding F24: both sweep loops of the hybrid driver are empty for a single core
+                out.append(('tdvp:order1-not-evolved', 'hybrid tdvp returned the initial state at every step of an order-1 train (dims %r)' % (dims,)))
+            else:
+                exact(xs, 'tdvp')
     except Exception as e:
         # classifier of known finding F15: the backward sweep of the hybrid driver starts with a one-site update at the
         # last core (last bond saturated) whose left environment was never built (identified at the failing call site)
